@@ -35,7 +35,8 @@ MkReq(code, mid, b1, b2, pay) ==
   IN [ver |-> 1, typ |-> 0, code |-> code, mid |-> mid, tok |-> Tok(mid), opts |-> o3, pay |-> pay]
 
 AppOpts(set) == IF set = 0 THEN << >>
-                ELSE IF set = 1 THEN << << 4, << << 225, 226 >> >> >>, << 6, << << 18, 52 >> >> >> >>   \* ETag, Observe
+                \* ETag, Observe, Location-Path with three values of which two are equal
+                ELSE IF set = 1 THEN << << 4, << << 225, 226 >> >> >>, << 6, << << 18, 52 >> >> >>, << 8, << << 97 >>, << 98 >>, << 97 >> >> >> >>
                 ELSE << << OPT_CONTENT_FORMAT, << << 42 >> >> >>, << 14, << << 60 >> >> >> >>
 
 \* overhead of the application's reply and of the client's largest request
